@@ -77,6 +77,15 @@ var workloads = map[string]workload{
 		Steps: []scen.Step{pubw(1, "a"), handle(0), inj("i1", 1), pubw(1, "b"), op("cut"), pubw(1, "c"), inj("i2", 1), pubw(1, "d"), handle(2), op("cut"), pub(1, "e"), inj("i3", 2), pub(1, "f")}},
 }
 
+func (w workload) hasStorm() bool {
+	for _, s := range w.Steps {
+		if s.Op == "hstorm" {
+			return true
+		}
+	}
+	return false
+}
+
 func (w workload) hasCut() bool {
 	for _, s := range w.Steps {
 		if s.Op == "cut" || s.Op == "down" {
@@ -161,6 +170,7 @@ type retrySpec struct {
 	Steer       bool
 	Drops       bool // silently dropped acknowledgements with a ResponseTimeout configured
 	RandHist    int  // seeded random subscription histories (scenarios per config)
+	Repeat      int  // repetitions of storm workloads (schedule sampling)
 }
 
 func cfgs(methods, sessions []string, always []bool) []retryParams {
@@ -235,6 +245,12 @@ func genRetry(spec retrySpec, tier string) []fw.Case {
 				for i := 0; i*per < spec.RandHist; i++ {
 					c.Mode, c.N, c.Part = "randhist", per, i
 					cs = append(cs, fw.Mk(fmt.Sprintf("randhist/%s%s/%d", cfgName(c.Cfg, c.Always, c.Chunk, c.Late), c.Client, i), c))
+				}
+			}
+			if spec.Repeat > 0 && w.hasStorm() {
+				for i := 0; i*50 < spec.Repeat; i++ {
+					c.Mode, c.N, c.Part = "repeat", 50, i
+					cs = append(cs, fw.Mk(fmt.Sprintf("repeat/%s/%d", name, i), c))
 				}
 			}
 			if spec.Drops {
@@ -333,6 +349,11 @@ func (p retryParams) scenarios(rng *rand.Rand) []scen.Scenario {
 	switch p.Mode {
 	case "one":
 		return []scen.Scenario{*p.One}
+	case "repeat":
+		// the workload brings its own cuts and a Handle/Stats storm: repetition samples schedules
+		for i := 0; i < p.N; i++ {
+			add(nil, nil, nil)
+		}
 	case "randhist":
 		for i := 0; i < p.N; i++ {
 			pre, steps := randSubHistory(rng)
